@@ -12,6 +12,7 @@ import numpy as onp
 from flax.core import FrozenDict
 
 from rex import base, utils
+from rex import _verif
 from rex.constants import Async, Clock, Jitter, LogLevel, RealTimeFactor, Scheduling
 from rex.node import BaseNode, Connection
 
@@ -121,6 +122,8 @@ class _AsyncNodeWrapper:
     def _submit(self, fn, *args, stopping: bool = False, **kwargs):
         with self._lock:
             if self._state in [Async.READY, Async.STARTING, Async.READY_TO_START, Async.RUNNING] or stopping:
+                _verif.point("submit", owner=self.node.name, fn=fn.__name__)
+                fn = _verif.wrap_task(self.node.name, fn)
                 f = self._executor.submit(fn, *args, **kwargs)
                 self._q_task.append((f, fn, args, kwargs))
                 f.add_done_callback(self._done_callback)
@@ -133,6 +136,7 @@ class _AsyncNodeWrapper:
     def _done_callback(self, f: Future):
         e = f.exception()
         if e is not None and e is not CancelledError:
+            _verif.point("task_error", error=e)
             error_msg = "".join(traceback.format_exception(None, e, e.__traceback__))
             utils.log(self.node.name, LogLevel.ERROR, "ERROR", error_msg)
 
@@ -864,6 +868,9 @@ class _AsyncConnectionWrapper:
     def _submit(self, fn, *args, stopping: bool = False, **kwargs):
         with self._lock:
             if self._state in [Async.READY, Async.RUNNING] or stopping:
+                _owner = f"{self.connection.output_node.name}/{self.connection.input_node.name}"
+                _verif.point("submit", owner=_owner, fn=fn.__name__)
+                fn = _verif.wrap_task(_owner, fn)
                 f = self._executor.submit(fn, *args, **kwargs)
                 self._q_task.append((f, fn, args, kwargs))
                 f.add_done_callback(self._done_callback)
@@ -876,6 +883,7 @@ class _AsyncConnectionWrapper:
     def _done_callback(self, f: Future):
         e = f.exception()
         if e is not None and e is not CancelledError:
+            _verif.point("task_error", error=e)
             error_msg = "".join(traceback.format_exception(None, e, e.__traceback__))
             utils.log(
                 f"{self.connection.output_node.name}/{self.connection.input_node.name}",
@@ -1304,6 +1312,7 @@ class _Synchronizer:
 
     def _async_step(self, step_state: base.StepState) -> Tuple[base.StepState, base.Output]:
         """Should not be jitted due to side-effects."""
+        _verif.point("sync.enter")
         self._f_act = Future()
         self._q_act.append(self._f_act)
 
@@ -1316,6 +1325,7 @@ class _Synchronizer:
         self._f_obs.set_result(step_state)
         self._f_obs = _new_f_obs
 
+        _verif.point("sync.before_wait")
         # Wait for action future's result to be set with action
         if not self._must_reset:
             try:
@@ -1595,24 +1605,29 @@ class AsyncGraph:
         # if len(self._synchronizer.action) > 0:
         #     self._synchronizer.action[-1].cancel()
 
+        _verif.point("stop.enter")
         # Stop all nodes
         fs = [n._stop(timeout=timeout) for n in self._async_nodes.values()]
 
+        _verif.point("stop.after_flip")
         # Initiate stop (this unblocks the root's step, that is waiting for an action).
         if len(self._synchronizer.action) > 0:
             self._synchronizer.action[-1].cancel()
 
+        _verif.point("stop.after_cancel")
         # Wait for all nodes to stop
         [f.result() for f in fs]  # Wait for all nodes to stop
 
         # Toggle
         self._initial_step = True
+        _verif.point("stop.exit")
 
     def run_until_supervisor(self, graph_state: base.GraphState) -> base.GraphState:
         """Runs graph until supervisor node.step is called.
 
         Internal use only. Use reset(), step(), run(), or rollout() instead.
         """
+        _verif.point("obs.wait")
         # Retrieve obs (waits for graph until supervisor to finish)
         next_step_state = self._synchronizer.observation.popleft().result()
         # print(f"[GET] run_until_root: seq={next_step_state.seq}, ts={next_step_state.ts:.2f}")
